@@ -657,7 +657,7 @@ func (x *Exec) builtin(st *State, call *ast.CallExpr, name string) []Term {
 			if sl, ok := types.Unalias(t).Underlying().(*types.Slice); ok {
 				et = sl.Elem()
 			}
-			arr := Term{S: fmt.Sprintf("((as const (Array Int %s)) %s)", s.Elem.Name, c.zero(s.Elem, et).S), Sort: c.arrSort(sortInt, s.Elem)}
+			arr := c.constArr(c.arrSort(sortInt, s.Elem), c.zero(s.Elem, et))
 			r := c.mkSlice(s, ln, arr)
 			r.Go = t
 			return []Term{c.define("make", r)}
